@@ -16,6 +16,10 @@ fn main() {
         "retryopts" => engines::retryopts::run,
         "filter" => engines::filter::run,
         "attempt" => engines::attempt::run,
+        "sched" => {
+            engines::sched::start_watchdog();
+            engines::sched::run
+        }
         "combinators" => engines::combinators::run,
         "outline" => engines::outline::run,
         "stepmatch" => engines::stepmatch::run,
@@ -25,8 +29,6 @@ fn main() {
         }
     };
     let stdin = std::io::stdin();
-    let stdout = std::io::stdout();
-    let mut out = stdout.lock();
     for line in stdin.lock().lines() {
         let line = line.expect("stdin");
         if line.trim().is_empty() {
@@ -45,7 +47,11 @@ fn main() {
         v["id"] = id;
         // user-visible prints of the code under test (e.g. Libtest forwards Log events with `print!`)
         // may precede the result on the same line: start a fresh, marked line
-        writeln!(out, "\n@@R {v}").expect("stdout");
-        out.flush().expect("flush");
+        {
+            // locked only while writing: the sched watchdog thread must be able to print too
+            let mut out = std::io::stdout().lock();
+            writeln!(out, "\n@@R {v}").expect("stdout");
+            out.flush().expect("flush");
+        }
     }
 }
